@@ -272,8 +272,10 @@ def D4_T1_storage_clearing(ctx):
         for j in range(i0 + 1, len(p.events)):
             e = p.events[j]
             fetched = p.events[i0].d['result']
+            # the slot is filled with the fetched value, or with zero when the re-check found the storage known meanwhile
             direct = e.kind == 'call' and callee_matches(e.d['callee'], ('Entry::or_insert', '::or_insert_with', 'VacantEntry::insert')) and \
-                any(mentions(a, fetched) for a in e.d['args'][1:])
+                (any(mentions(a, fetched) for a in e.d['args'][1:]) or any(a[0] == 'const' and 'ZERO' in a[1] for a in e.d['args'][1:])) and \
+                e.d['args'] and has_call(e.d['args'][0], '~DashMap') and not mentions_field(e.d['args'][0], 'ParallelCacheState.accounts')
             if direct or (is_closure_call(e) and may.may(e, ('Entry::or_insert', '~or_insert'))):
                 if any(g_[0].startswith('dashmap') and g_[1] is not None and mentions_field(g_[1], 'ParallelCacheState.storage') for g_ in e.held) or \
                         (e.d['args'] and has_call(e.d['args'][0], '~DashMap') and mentions_field(e.d['args'][0], 'ParallelCacheState.storage')):
@@ -291,6 +293,9 @@ def D4_T1_storage_clearing(ctx):
         recheck = False
         for x in p.events[acq[0]:ins]:
             if x.kind == 'call' and (callee_matches(x.d['callee'], 'AccountStatus::is_storage_known') or may.may(x, 'AccountStatus::is_storage_known')):
+                recheck = True
+            # the account entry is read again under the guard (absent ⇒ storage not known)
+            if x.kind == 'call' and norm_callee(x.d['callee']).endswith('DashMap::get') and mentions_field(x.d['args'][0], 'ParallelCacheState.accounts'):
                 recheck = True
         if is_closure_call(e_ins) and may.may(e_ins, 'AccountStatus::is_storage_known'):
             # the inserting closure itself re-checks: require the order inside the closure
